@@ -37,8 +37,14 @@ func NewEnvCased(ops []spec.Op, c spec.Casing) *Env {
 
 var allElementVocab = func() []string {
 	var v []string
-	for _, l := range [][]string{gen.ElOrdinary, gen.ElVoid, gen.ElRawText, gen.ElSkip, gen.ElForeign, gen.ElCustom, gen.ElMedia, gen.ElDanger, gen.ElOdd} {
-		v = append(v, l...)
+	seen := map[string]bool{}
+	for _, l := range [][]string{gen.ElOrdinary, gen.ElVoid, gen.ElRawText, gen.ElSkip, gen.ElForeign, gen.ElCustom, gen.ElMedia, gen.ElDanger, gen.ElOdd, gen.ElAll} {
+		for _, n := range l {
+			if !seen[n] {
+				seen[n] = true
+				v = append(v, n)
+			}
+		}
 	}
 	return v
 }()
@@ -127,7 +133,7 @@ func (e *Env) ruleAttrs(el string) []string {
 	return out
 }
 
-var relPool = []string{"nofollow", "noopener", "noreferrer", "nofollow noopener", "NOFOLLOW", "xnofollowx", "noopenerx", "author", "a b", "nofollow\tnoreferrer", "nofollow\nx", "nofollow nofollow", " ", "", "external nofollow noopener noreferrer", "NoOpener", "noreferrernofollow"}
+var relPool = []string{"tag\u00a0", "author\u3000", "me\x0b", "nofollow", "noopener", "noreferrer", "nofollow noopener", "NOFOLLOW", "xnofollowx", "noopenerx", "author", "a b", "nofollow\tnoreferrer", "nofollow\nx", "nofollow nofollow", " ", "", "external nofollow noopener noreferrer", "NoOpener", "noreferrernofollow"}
 var targetPool = []string{"_blank", "_self", "_BLANK", "_top", "frame1", "", " _blank", "_blank "}
 
 // StyleKnown lists (property, sample values) for the element from the shadow rules.
